@@ -98,6 +98,8 @@ def body_seq(ch, ctx):
     sig = dict(strand=strand, use_strand=use_strand)
     ctx.check(len(f) == e - s + 1, "len-differs", None, start=s, end=e, got=len(f))
     got = f.sequence(path if as_path else fa, use_strand=use_strand)
+    positional = f.sequence(path if as_path else fa, use_strand)          # the same call, second argument positional
+    ctx.check(str(positional) == str(got), "sequence-positional-call-differs", sig, keyword=str(got), positional=str(positional))
     ctx.check(str(got) == exp, "sequence-differs", sig, record=rec, start=s, end=e, got=str(got), expected=exp)
     ctx.check(len(str(got)) == len(f), "sequence-length-differs-from-len", sig, start=s, end=e, got=str(got))
 
@@ -139,9 +141,14 @@ def body_bed(ch, ctx):
         else:
             cds = [(a + 1, b - 1)] if b - a >= 2 else [(a, b)]
     child_type = "CDS" if mode == "thick" else "UTR"
+    # every other exon set uses blocks of type 'noncoding_exon' (asked for as a plain string) next to decoy 'exon' children
+    stringform = (len(exons) + sum(a + b for a, b in exons)) % 2 == 1
+    btype = "noncoding_exon" if stringform else "exon"
     lines = ["c7\ts\tmRNA\t%d\t%d\t.\t%s\t.\tID=t1" % (ts, te, strand)]
     for a, b in exons:
-        lines.append("c7\ts\texon\t%d\t%d\t.\t%s\t.\tParent=t1" % (a + off, b + off, strand))
+        lines.append("c7\ts\t%s\t%d\t%d\t.\t%s\t.\tParent=t1" % (btype, a + off, b + off, strand))
+    if stringform and exons:
+        lines.append("c7\ts\texon\t%d\t%d\t.\t%s\t.\tParent=t1" % (exons[0][0] + off, exons[0][0] + off, strand))      # decoy
     for a, b in (reversed(cds) if cds_opt == "first_last_desc" else cds):
         lines.append("c7\ts\t%s\t%d\t%d\t.\t%s\t.\tParent=t1" % (child_type, a, b, strand))
     path = dbutil.write_text(ctx.fresh_dir(), "t.gff", "\n".join(lines) + "\n")
@@ -153,6 +160,8 @@ def body_bed(ch, ctx):
     ctx.outcome((len(exons), span, cds_opt, mode, byid, name_field))
     sig = dict(n_exons=len(exons), span=span, argument=byid, mode=mode, always_return_list=switch)
     kw = dict(name_field=name_field)
+    if stringform:
+        kw["block_featuretype"] = "noncoding_exon"
     if mode == "thin":
         kw.update(thick_featuretype=None, thin_featuretype=["UTR"])
     from gffutils import constants
@@ -193,7 +202,7 @@ def body_bed(ch, ctx):
     # the alternative converter
     if mode == "thick":
         try:
-            line = convert.to_bed12(arg, db, name_field=name_field)
+            line = convert.to_bed12(arg, db, name_field=name_field, **({"child_type": "noncoding_exon"} if stringform else {}))
         except Exception as ex:
             ctx.fail("to_bed12-raised", dict(sig, exc=type(ex).__name__), file=lines, message=str(ex)[:200])
             return
